@@ -517,6 +517,47 @@ def rule_R07_6(ctx):
                 cells = sorted(x for x in locked if "SourcedValue" in x and "HashMap" not in x)
                 if cells:
                     live.append((c, cells))
+            # a lazily evaluated iterator (Box<dyn Iterator>, `map(move |i| ..)`)
+            # stepped by the loop: its closures run inside the loop
+            for c in se.calls():
+                if c.bb not in body or not (c.declared or "").endswith("Iterator::next"):
+                    continue
+                a0 = c.argtys[0] if c.argtys else ""
+                if "dyn " not in a0 and "{closure@" not in a0:
+                    continue
+                # where does the iterator come from?
+                prod = ops.try_chain_source(se, c.args[0])
+                seenp = set()
+                cur_op = c.args[0]
+                for _ in range(6):
+                    cp_ = se.canon_op(cur_op)
+                    if cp_[0][0] != "call":
+                        break
+                    pc_ = se.call_at(cp_[0][1])
+                    if pc_ is None:
+                        break
+                    g_ = prog.fns.get(pc_.res) if not pc_.is_ptr else None
+                    if g_ is not None and g_.full and not g_.generated:
+                        prod = pc_
+                        break
+                    if not pc_.args:
+                        break
+                    cur_op = pc_.args[0]
+                if prod is None or prod.is_ptr:
+                    continue
+                pg = prog.fns.get(prod.res)
+                if pg is None or not pg.full:
+                    continue
+                for cl in prog.closures_of(pg.path):
+                    cells = set()
+                    for cc in cl.calls():
+                        t_ = mir.mutex_locked_type(cc)
+                        for x in ({t_} if t_ else set()) | (set(eff.get(cc.res, ())) if not cc.is_ptr else set()):
+                            if "SourcedValue" in x and "HashMap" not in x:
+                                cells.add(x)
+                    if cells:
+                        live.append((c, sorted(cells) + ["(in %s, run lazily by the loop)" % cl.path]))
+                        break
             r.inst("for loop: %d call(s) inside the loop can lock a container cell" % len(live))
             if not live:
                 r.ok()
